@@ -68,6 +68,8 @@ def cases(tier, seed):
                 if tier == "quick" and rnd.random() < 0.0 and not (pb and dist.startswith("MeanField")):
                     continue
                 yield {"kind": "svgp", "pbatch": pb, "dbatch": db, "zbatch": zb, "strategy": strat, "dist": dist, "seed": rnd.randrange(10**6)}
+        for pb, db in (([2], [2]), ([], [3]), ([3], [3]), ([2], [3, 2])):
+            yield {"kind": "exact", "pbatch": pb, "dbatch": db, "nan_fill": True, "seed": rnd.randrange(10**6)}
         # targets carrying batch dimensions the inputs and the model do not have (data broadcast against each other)
         for pb, db, yb in (([], [], [2]), ([], [], [3, 2]), ([2], [], [3, 2]), ([], [2], [3, 2]), ([2], [2], [3, 2])):
             yield {"kind": "exact", "pbatch": pb, "dbatch": db, "ybatch": yb, "seed": rnd.randrange(10**6)}
@@ -248,18 +250,33 @@ def _exact(case, ctx, g):
     full = list(torch.broadcast_shapes(torch.Size(pb), torch.Size(db), torch.Size(yb)))
     n, ns = 6, 3
     X, y, xs = util.randn(g, *db, n, D), util.randn(g, *yb, n), util.randn(g, *db, ns, D)
+    import contextlib
+
+    from gpytorch import settings as S
+
+    nanfill = bool(case.get("nan_fill"))
+    if nanfill:
+        # missing targets at positions that differ between batch elements, policy 'fill' (the per-element policy): element b
+        # equals the replica that misses element b's positions only
+        flat = y.reshape(-1, n)
+        for r_ in range(flat.shape[0]):
+            flat[r_, (r_ * 2 + 1) % n] = float("nan")
+            if r_ % 2:
+                flat[r_, (r_ * 3) % n] = float("nan")
+    pol = S.observation_nan_policy("fill") if nanfill else contextlib.nullcontext()
     m = _mk_exact(pb, X, y)
     util.randomize(m, g, 0.5)
     yonly = "ybatch" in case  # targets with batch dimensions of their own: the marginal likelihood broadcasts, prediction refuses (explicit error)
     try:
-        with torch.no_grad():
+        with torch.no_grad(), pol:
             if not yonly:
                 m.eval()
                 out = m(xs)
                 mean, cov = out.mean, out.covariance_matrix
             m.train()
             try:
-                v = gpytorch.mlls.ExactMarginalLogLikelihood(m.likelihood, m)(m(X), y)
+                # (the exact MLL documents that it does not support the 'fill' policy: posterior only in those cells)
+                v = None if nanfill else gpytorch.mlls.ExactMarginalLogLikelihood(m.likelihood, m)(m(X), y)
             except Exception as e_mll:
                 import traceback
 
@@ -284,11 +301,11 @@ def _exact(case, ctx, g):
         Xb, yb_, xsb = _sl(X, db, b, full), _sl(y, yb, b, full), _sl(xs, db, b, full)
         r = _mk_exact([], Xb, yb_)
         _load_slice(m, r, b, full)
-        with torch.no_grad():
+        with torch.no_grad(), (S.observation_nan_policy("fill") if nanfill else contextlib.nullcontext()):
             r.eval()
             ro = r(xsb)
             r.train()
-            rv = gpytorch.mlls.ExactMarginalLogLikelihood(r.likelihood, r)(r(Xb), yb_)
+            rv = None if nanfill else gpytorch.mlls.ExactMarginalLogLikelihood(r.likelihood, r)(r(Xb), yb_)
         if not yonly:
             ctx.close("posterior_replica", torch.cat([me[b], ce[b].reshape(-1)]), torch.cat([ro.mean, ro.covariance_matrix.reshape(-1)]), "direct", cls="exact:posterior", element=list(b))
         if ve is not None:
